@@ -137,6 +137,26 @@ Proof.
   - apply create_block_same.
 Qed.
 
+(* OmegaRecord.remove on a record without BLOCK (the model odiag_remove is tied node by node to the
+   implementation, Check tag 28).  For every record tree whose diag_item children are trees, and every index list:
+   the diagonal items of the shrunk record are exactly the items whose index is not removed, in order (whatever
+   white space, comments, options or DIAGONAL(n) surround them; the final NEWLINE is kept since 5bd60d8); and
+   when every item stands for one parameter (no (v)xn item - with one, indices count nodes, not parameters:
+   finding C04-OMEGA-XN-REMOVE), the shrunk record means the old parameter list without the removed indices. *)
+Theorem odiag_remove_keeps_the_other_items :
+  forall (root : node) (inds : list nat),
+    items_are_trees (children root) = true ->
+    items_of (odiag_remove root inds) = remove_idx (items_of root) 0 inds.
+Proof. exact odiag_remove_items. Qed.
+
+Theorem odiag_remove_sem :
+  forall (V : Type) (F : fops V) (root : node) (inds : list nat) (ps : list (oparam V)),
+    items_are_trees (children root) = true ->
+    forallb (fun c => match item_n (children c) with Ok n => N.eqb n 1 | Err _ => false end) (items_of root) = true ->
+    osem V F root = Ok ps ->
+    osem V F (odiag_remove root inds) = Ok (remove_idx ps 0 inds).
+Proof. exact odiag_remove_sem_lemma. Qed.
+
 (* "Values that were not changed keep their original spelling", for one plain theta: the init token is
    untouched whenever its value is the new value; a bound that stays is written with format_number's
    text - so it keeps its spelling exactly when it was spelled that way (Refuted.theta_refuted_respell
